@@ -130,6 +130,18 @@ def run(shard, rec, tier, seed):
                     cells.add((c, i % 2, n % 2))
                     cnt += 1
                     rec.case(bytes(x))
+        # the buffer passed by name (the parameter is called `bytes`)
+        for x in (b"", b"a", b"Hello, World!", b"\x22\x7e\xff\x00\x50", bytes(range(0x20, 0x80))):
+            for f, reff in ((mon.enc, ref.encode), (mon.dec, ref.decode)):
+                b = bytearray(x)
+                try:
+                    f(bytes=b)
+                except Exception as ex:
+                    rec.violation("raises", "%s(bytes=...) raised %r" % (f.__name__, ex), {"input": x})
+                    continue
+                if bytes(b) != reff(x):
+                    rec.violation("table", "%s(bytes=%s) gives %s, reference %s" % (f.__name__, x.hex(), bytes(b).hex(), reff(x).hex()), {"input": x})
+        rec.count("keyword-calls", 10)
         rng = random.Random("C08-huge")
         for L in (65535, 65536, 65537, 70001, 131073):
             x = bytes(rng.choice([rng.randrange(256), 0x41, 0x7E, 0xFF, 0x00]) for _ in range(L))
